@@ -130,6 +130,13 @@ BUILT = {
         'and signalling on seeded networks. NOT decided: global optimality, reaction equilibrium and order independence (assumed SLSQP contract; '
         'the bounded run measures how often it is not met).',
    note=BASE_NOTE + '; scipy.optimize.minimize (SLSQP) returns an arbitrary result respecting its bounds; nothing about optimality is proved'),
+ 'C11': dict(level='proof', sec='4/C11',
+   text='Per serialisable class (29 classes incl. nested species inside reactions inside reaction sets): the object encodes under the JSON value '
+        'model, decodes to the same class, every constructor-established attribute listed in the contract is restored, and from_dict leaves '
+        'the dictionary it is given unmodified; json_to_pmutt / remove_class do not alter their argument. Four attributes that pinned '
+        'to_dict tests force to be dropped are known findings.',
+   note=BASE_NOTE + '; JSON value model (objects -> to_dict, tuples -> lists, keys -> str, object_hook bottom-up) in spec/jsonrt_model.py, natively the real json module; '
+        'attribute lists per class are written in the contract file'),
 }
 REASON_PENDING = 'check not built yet (build phase in progress; see DESIGN.md section 10)'
 checks = []
